@@ -53,6 +53,6 @@ def run(tier: str) -> Check:
     for label, sk, ents in mods[:2]:
         modcheck.check_module(check, label, sk, ents, repo)
     check.floor("mutation_sites", 150)
-    check.floor("long_lived_write_candidates", 6)
+    check.floor("long_lived_write_candidates", 2)  # a vacuity guard, not a census
     check.floor("module_level_mutables", 8)
     return check
